@@ -10,6 +10,21 @@
  *   rehash   : GC_Rehash is stubbed inside set/rem/sweep steps and discharged on its own (OP_REHASH)
  *   -DNS= -DNC= -DOP= [-DHOME=]                                                                   */
 #include "verif.h"
+#define OP_SET 1
+#define OP_MEM 2
+#define OP_REM 3
+#define OP_SWEEP 4
+#define OP_MARK 5
+#define OP_REHASH 6
+#define OP_HASH 7
+#define OP_COLLECT 8
+#define OP_MARK_ITEM 9
+#define OP_RECURSE 10
+#define OP_MARK_TOP 11
+#define OP_SWEEP_OWN 12
+#define OP_REM_PENDING 13
+#define OP_MARK_AND_RECURSE 14
+#define OP_RECURSE_HOLDER 15
 #ifndef NS
 #define NS 5
 #endif
@@ -35,6 +50,8 @@ struct Inputs {
 #define memcpy verif_memcpy_w
 #define realloc verif_realloc_fl
 #define free verif_free_fl
+#define calloc verif_calloc_rh
+void* verif_calloc_rh(size_t, size_t);
 var verif_type_of(var); var verif_destruct(var); void verif_dealloc(var); var verif_current(var);
 void* verif_memset_w(void*, int, size_t); void* verif_memcpy_w(void*, const void*, size_t); void* verif_realloc_fl(void*, size_t); void verif_free_fl(void*);
 #include "GC.c"     /* the real /repo/src/GC.c, built with -DCELLO_VERIF (stack-segment hook) */
@@ -47,28 +64,53 @@ void* verif_memset_w(void*, int, size_t); void* verif_memcpy_w(void*, const void
 #undef memcpy
 #undef realloc
 #undef free
+#undef calloc
 /* GC.c clears and moves whole registry entries (3 words): words-only models, alignment asserted */
 void* verif_memset_w(void* d, int c, size_t n) { V_ASSERT(n % 8 == 0 && c == 0, "harness: whole zeroed words"); for (size_t i = 0; i < n / 8; i++) ((uint64_t*)d)[i] = 0; return d; }
 void* verif_memcpy_w(void* d, const void* s, size_t n) { V_ASSERT(n % 8 == 0, "harness: whole words"); for (size_t i = 0; i < n / 8; i++) { ((void**)d)[i] = ((void* const*)s)[i]; ((uint64_t*)d)[i] = ((const uint64_t*)s)[i]; } return d; }
 /* the pending-free list: one static buffer, requested size recorded (writes beyond it are checked) */
 static var FLBUF[NS + 2]; static size_t fl_req = 0; static int fl_live = 0, fl_frees = 0;
 void* verif_realloc_fl(void* p, size_t n) { V_ASSERT(p == NULL && !fl_live, "sweep allocates its list once"); V_ASSERT(n <= NS * sizeof(var), "free list sized by the number of registered objects"); fl_req = n; fl_live = 1; return FLBUF; }
-void verif_free_fl(void* p) { if (p == NULL) return; V_ASSERT(p == (void*)FLBUF && fl_live, "free of the live list, once"); fl_live = 0; fl_frees++; }
+/* the registry's slot arrays: ENT is the (arbitrary) current one, ENT2 the one GC_Rehash allocates (OP_REHASH) */
+#ifndef NS2
+#define NS2 1
+#endif
+static struct GCEntry ENT[NS]; static struct GCEntry ENT2[NS2]; static int rh_allocs = 0, rh_old_frees = 0; static size_t rh_req = 0;
+void* verif_calloc_rh(size_t n, size_t sz) { V_ASSERT(sz == sizeof(struct GCEntry) && n == NS2 && rh_allocs == 0, "rehash allocates the new slot array once, of the requested size"); rh_allocs++; rh_req = n;
+  for (size_t i = 0; i < NS2; i++) { ENT2[i].ptr = NULL; ENT2[i].hash = 0; ENT2[i].root = 0; ENT2[i].marked = 0; } return ENT2; }
+void verif_free_fl(void* p) { if (p == NULL) return; if (p == (void*)ENT) { rh_old_frees++; return; } V_ASSERT(p == (void*)FLBUF && fl_live, "free of the live list, once"); fl_live = 0; fl_frees++; }
 V_DECLARE_INPUTS
 
 /* ---- managed cells ---- */
 struct Cell { var a; var b; };
 static var Cell = Cello(Cell);
 #define CW ((sizeof(struct Header) + sizeof(struct Cell)) / 8)
-static uint64_t C0[CW], C1[CW], C2[CW], C3[CW], C4[CW], C5[CW];
+/* PADMASK: bit i set = cell i sits one word further into its buffer, i.e. at a pointer-aligned address that is
+ * NOT of the form "16-byte boundary + header" malloc would give (objects from a type's own Alloc instance, or
+ * registered by hand, are only pointer-aligned) */
+#ifndef PADMASK
+#define PADMASK 0
+#endif
+static uint64_t C0[CW + 1], C1[CW + 1], C2[CW + 1], C3[CW + 1], C4[CW + 1], C5[CW + 1];
 static uint64_t* const CBUF[6] = { C0, C1, C2, C3, C4, C5 };
-static var cell_at(long i) { return i < 0 ? NULL : (var)((char*)CBUF[i] + sizeof(struct Header)); }
+#define CPAD(i) ((((PADMASK) >> (i)) & 1) ? 8 : 0)
+static var cell_at(long i) { return i < 0 ? NULL : (var)((char*)CBUF[i] + CPAD(i) + sizeof(struct Header)); }
 static long cell_index(var p) { for (long i = 0; i < NC; i++) if (p == cell_at(i)) return i; return -1; }
 static uint64_t JUNK[2];     /* something that is not a managed object */
 static int finalised[NC], freed[NC]; static int order_ok = 1;
 static struct GC* G;
 
+/* a second cell type with a Mark instance (as Tuple, Array, List, Table, Tree have): it reports its first word */
+struct Holder { var a; var b; };
+static void Holder_Mark(var self, var gc, void(*f)(var,void*)) { struct Cell* x = self; if (x->a != NULL) f(gc, x->a); }
+static var Holder = Cello(Holder, Instance(Mark, Holder_Mark));
+static var holder_ptr = NULL;
+#if defined(OP) && OP == 15   /* OP_RECURSE_HOLDER: the object operated on is the Holder, every object entered below it a plain Cell
+                               * (an unregistered Holder containing itself is assumed away there) -- decided by call order so that it folds */
+var verif_type_of(var p) { V_ASSERT(cell_index(p) >= 0, "collector inspects only managed cells"); if (p != NULL && holder_ptr != NULL) { V_ASSERT(p == holder_ptr, "harness: first object entered is the holder"); holder_ptr = NULL; return Holder; } return Cell; }
+#else
 var verif_type_of(var p) { V_ASSERT(cell_index(p) >= 0, "collector inspects only managed cells"); return Cell; }
+#endif
 var verif_current(var type) { return NULL; }     /* no thread-local storage in this harness: mark(NULL, ...) is a no-op */
 var verif_destruct(var p) {
   long i = cell_index(p);
@@ -90,6 +132,15 @@ static var probe_ptr = NULL; static uint64_t probe_hash = 0;    /* the pointer o
 uint64_t verif_gc_hash(var p) { if (p == probe_ptr) return probe_hash; long i = cell_index(p); return i >= 0 ? IN.GH[i] : IN.mitems; /* foreign pointers hash arbitrarily */ }
 static int rehash_calls = 0; static size_t rehash_size = 0;
 void verif_gc_rehash_stub(struct GC* gc, size_t n) { rehash_calls++; rehash_size = n; }
+/* GC_Rehash's callee: every insertion into the new slot array is GC_Set_Ptr, whose contract (from ANY valid
+ * registry: the entry is added with the root flag given, nothing else changes, layout stays valid) is what the
+ * set.home* obligations decide; inside OP_REHASH it is a recorder */
+static var rh_ptr[NS + 1]; static _Bool rh_root[NS + 1]; static int rh_calls = 0; static int rh_bad_table = 0;
+void verif_set_ptr_stub(struct GC* gc, var ptr, _Bool root) {
+  if (rh_calls <= NS) { rh_ptr[rh_calls] = ptr; rh_root[rh_calls] = root; }
+  if (gc->entries != ENT2 || gc->nslots != NS2) rh_bad_table++;     /* insertions must go to the new array, with the new size already in place */
+  rh_calls++;
+}
 static int mark_calls = 0, sweep_calls = 0;
 void verif_mark_stub(struct GC* gc) { mark_calls++; }
 void verif_sweep_stub(struct GC* gc) { sweep_calls++; }
@@ -116,19 +167,6 @@ void verif_item_stub(void* gc, void* p) { if (n_item < MAXCALLS) rec_item[n_item
 static uint64_t STK[NK + 2];
 var cello_verif_stack_top(var top) { return IN.dir ? (var)&STK[NK] : (var)&STK[1]; }
 
-#define OP_SET 1
-#define OP_MEM 2
-#define OP_REM 3
-#define OP_SWEEP 4
-#define OP_MARK 5
-#define OP_REHASH 6
-#define OP_HASH 7
-#define OP_COLLECT 8
-#define OP_MARK_ITEM 9
-#define OP_RECURSE 10
-#define OP_MARK_TOP 11
-#define OP_SWEEP_OWN 12
-#define OP_REM_PENDING 13
 
 #if NS == 1
 #define MAXN 0
@@ -178,7 +216,6 @@ static _Bool inv(struct GC* gc, size_t ns, _Bool marks_clear) {
 static struct GC* arbitrary_gc(void) {
   static struct { struct Header h; struct GC g; } gobj;
   struct GC* gc = header_init(&gobj.h, GC, AllocHeap);
-  static struct GCEntry ENT[NS];
   gc->entries = ENT; gc->nslots = NS; gc->running = true; gc->freelist = NULL; gc->freenum = 0;
   gc->minptr = UINTPTR_MAX; gc->maxptr = 0; gc->bottom = IN.dir ? (var)&STK[1] : (var)&STK[NK];
   size_t n = 0;
@@ -192,7 +229,7 @@ static struct GC* arbitrary_gc(void) {
   }
   for (long c = 0; c < NC; c++) {           /* minptr/maxptr cover every address ever registered (they only widen) */
     V_ASSUME(IN.GH[c] < NS * 11);
-    header_init(CBUF[c], Cell, AllocHeap);
+    header_init((char*)CBUF[c] + CPAD(c), Cell, AllocHeap);
     gc->minptr = (uintptr_t)cell_at(c) < gc->minptr ? (uintptr_t)cell_at(c) : gc->minptr;
     gc->maxptr = (uintptr_t)cell_at(c) > gc->maxptr ? (uintptr_t)cell_at(c) : gc->maxptr;
   }
@@ -213,7 +250,12 @@ V_NO_THROW_EXPECTED
 V_HARNESS {
   V_LOAD_INPUTS();
   V_ASSUME(IN.c < NC);
+#ifdef CC
+  V_ASSUME(IN.c == CC);
+  long c = CC; var pc = cell_at(CC);       /* case split on the cell operated on */
+#else
   long c = IN.c; var pc = cell_at(c);
+#endif
 #if OP == OP_HASH
   /* GC_Hash is a function of the address alone, distinct for distinct 8-aligned addresses */
   V_WITNESS("hash evaluated");
@@ -333,6 +375,29 @@ V_HARNESS {
   GC_Recurse(gc, pc);
   V_WITNESS("recurse returned");
   V_ASSERT(n_item == 2 && rec_item[0] == target(IN.w0[c]) && rec_item[1] == target(IN.w1[c]), "recurse: every pointer-sized word of a plain object is handed to the marker, in order, nothing else");
+#elif OP == OP_MARK_AND_RECURSE
+  /* the callback handed to every Mark instance (and used for thread-local storage): a REGISTERED object goes to
+   * GC_Mark_Item alone (which enters it once, on its unmarked->marked transition: cycles through containers
+   * terminate); an unregistered item (stored inline in its container) is entered directly */
+  V_ASSUME(inv(gc, NS, 0) && n > 0);
+  probe_ptr = pc; probe_hash = IN.GH[c];
+  GC_Mark_And_Recurse(gc, pc);
+  V_WITNESS("mark_and_recurse returned");
+  if (c_in) V_ASSERT(n_item == 1 && rec_item[0] == pc && n_recurse == 0, "callback: a registered object is handed to the marker, once, and not entered a second time");
+  else      V_ASSERT(n_item == 0 && n_recurse == 1 && rec_recurse[0] == pc, "callback: an unregistered (inline) item is entered exactly once");
+#elif OP == OP_RECURSE_HOLDER
+  /* GC_Recurse on an object whose type has a Mark instance: the item it reports must be treated as above --
+   * registered: marked through GC_Mark_Item; inline: entered (its own words reach the marker) */
+  V_ASSUME(inv(gc, NS, 0) && n > 0);
+  build_graph();
+  holder_ptr = pc;
+  V_ASSUME(IN.w0[c] == DD);      /* case split on the item the holder reports */
+  ((struct Cell*)pc)->a = cell_at(DD);
+  { long d = DD; V_ASSUME(pre_reg[d] || d != c);     /* an UNREGISTERED object that contains itself is outside: nothing bounds that walk */
+    GC_Recurse(gc, pc);
+    V_WITNESS("recurse through a Mark instance returned");
+    if (pre_reg[d]) V_ASSERT(n_item == 1 && rec_item[0] == cell_at(d), "a registered item reported by a Mark instance is handed to the marker (which marks and enters it once)");
+    else V_ASSERT(n_item == 2 && rec_item[0] == target(IN.w0[d]) && rec_item[1] == target(IN.w1[d]), "an inline item reported by a Mark instance is entered: its own words reach the marker"); }
 #elif OP == OP_MARK_TOP
   V_ASSUME(inv(gc, NS, 1) && n > 0);
   build_graph();
@@ -412,7 +477,36 @@ V_HARNESS {
     V_ASSERT(!(finalised[0] && reg_find(gc, NS, 0, &q)) && !(finalised[1] && reg_find(gc, NS, 1, &q)), "finalised objects are no longer registered");
   }
 #elif OP == OP_REHASH
-  V_ASSUME(inv(gc, NS, 0) || 1);
+  /* GC_Rehash(gc, NS2) from an arbitrary valid NS-slot registry.  Called by GC_Set before the new entry is
+   * placed, by GC_Rem after a removal and by GC_Sweep at its end: marks are clear at all three.
+   * REHASH_FULL: the real re-insertion loop (GC_Set_Ptr, uninterpreted address hash); otherwise GC_Set_Ptr is
+   * the recorder above and the step decides what rehash itself adds: new zeroed array of the requested size,
+   * every old entry handed over exactly once with ITS root flag, old array freed once, count untouched. */
+  V_ASSUME(inv(gc, NS, 1));
+  V_ASSUME(n < NS2);
+  struct GCEntry before[NS];
+  for (size_t i = 0; i < NS; i++) before[i] = ENT[i];
+  GC_Rehash(gc, NS2);
+  V_WITNESS("rehashed");
+  V_ASSERT(rh_allocs == 1 && rh_old_frees == 1 && gc->entries == ENT2 && gc->nslots == NS2, "rehash installs a new slot array of the requested size and frees the old one exactly once");
+  V_ASSERT(gc->nitems == n, "rehash leaves the item count alone");
+#ifdef REHASH_FULL
+  V_ASSERT(inv(gc, NS2, 1), "rehash rebuilds a valid robin-hood layout at the new size (no duplicate, stored home slots match the hash, probe order, count exact, marks clear)");
+  for (long i = 0; i < NC; i++) {
+    size_t q = 0; _Bool r = reg_find(gc, NS2, i, &q);
+    V_ASSERT(r == pre_reg[i], "rehash neither loses nor invents an entry");
+    V_ASSERT(!r || (gc->entries[q].root ? 1 : 0) == (pre_root[i] ? 1 : 0), "rehash keeps the root flag each object was registered with");
+  }
+  V_ASSERT(GC_Mem_Ptr(gc, pc) == c_in, "mem answers as before the rehash");
+#else
+  V_ASSERT(rh_calls == (int)n && rh_bad_table == 0, "rehash re-inserts exactly the registered entries, into the new array");
+  { int k = 0;
+    for (size_t i = 0; i < NS; i++) if (before[i].hash != 0) {
+      V_ASSERT(k < rh_calls && rh_ptr[k] == before[i].ptr, "rehash hands over every registered pointer once");
+      V_ASSERT(k < rh_calls && (rh_root[k] ? 1 : 0) == (before[i].root ? 1 : 0), "rehash keeps the root flag each object was registered with");
+      k++;
+    } }
+#endif
 #endif
 #endif
 }
